@@ -426,7 +426,7 @@ package scheduler
 //@   loop 0 invariant [e] old(w_scope(sc, node)) ==> (!setupSucceed ==> node.data.State.Status == NodeStatusError && sc.lastError != nil)
 
 //@ fn (*Scheduler).Schedule(sc, ctx, g, done) (err)
-//@   props C01 C02 C03 C04 C05 C11 C15
+//@   props C01 C02 C03 C04 C05 C10 C11 C15
 //@   requires nodes_wf(g) && graph_wf(g)
 //@   requires forall i int :: 0 <= i && i < len(g.nodes) ==> has(g.dict, g.nodes[i].id)
 //@   modifies sc.handlers, sc.lastError, g.startedAt, g.finishedAt, heap(Node), heap(alloc), heap(map(dag.HandlerType, *Node)),
@@ -439,10 +439,10 @@ package scheduler
 //@   ensures [C03 scheduling_keeps_the_graph] nodes_wf(g) && graph_wf(g)
 //@   expect calls go (*Scheduler).Schedule$1 >= 1
 //@   expect calls isReady >= 1
-//@   assert before go [C01 deps_ok_at_launch]
+//@   assert before go [C01,C10 deps_ok_at_launch]
 //@        forall j int :: 0 <= j && j < len(g.to[arg0.id]) ==> dep_ok(g.dict[g.to[arg0.id][j]])
 //@   assert before go [C03 running_before_spawn] arg0.data.State.Status == NodeStatusRunning
-//@   assert before (*Node).setStatus#1 [C03 launched_from_none] arg0.data.State.Status == NodeStatusNone && arg1 == NodeStatusRunning
+//@   assert before (*Node).setStatus#1 [C03,C10 launched_from_none] arg0.data.State.Status == NodeStatusNone && arg1 == NodeStatusRunning
 //@   assert before (*Node).setStatus#1 [C15 below_limit]
 //@        sc.maxActiveRuns > 0 ==> count_running(g, len(g.nodes)) < sc.maxActiveRuns
 //@   assert before go [C05 not_canceled_at_launch] sc.canceled != 1
@@ -454,7 +454,7 @@ package scheduler
 //@        launch == iter(launch) ||
 //@        (launch == upd(iter(launch), g.nodes[idx], iter(launch[g.nodes[idx]]) + 1) &&
 //@         iter(g.nodes[idx].data.State.Status) == NodeStatusNone)
-//@   loop 1 step [C02 only_none_nodes_are_marked]
+//@   loop 1 step [C02,C10 only_none_nodes_are_marked]
 //@        forall i int :: 0 <= i && i < len(g.nodes) ==>
 //@           (g.nodes[i].data.State.Status == iter(g.nodes[i].data.State.Status) ||
 //@            (g.nodes[i] == g.nodes[idx] && iter(g.nodes[i].data.State.Status) == NodeStatusNone))
@@ -521,6 +521,8 @@ package scheduler
 //@   safety
 //@   requires dict_wf(g) && ids_wf(g) && nodes_wf(g) && g.from != nil && g.to != nil && g.from != g.to
 //@   requires forall k int, j int :: 0 <= j && j < len(g.to[k]) ==> has(g.dict, g.to[k][j])
+//@   requires forall k int, j int :: 0 <= j && j < len(g.from[k]) ==> has(g.dict, g.from[k][j])
+//@   requires [nodes_in_dict] forall i int :: 0 <= i && i < len(g.nodes) ==> has(g.dict, g.nodes[i].id)
 //@   modifies contents(g.from), contents(g.to), heap(alloc), ghost obs.cycle, ghost obs.cycle_calls
 //@   expect calls (*ExecutionGraph).hasCycle >= 1
 //@   assert before (*ExecutionGraph).hasCycle [C14 cycle_test_sees_every_edge]
@@ -531,15 +533,18 @@ package scheduler
 //@   ensures [C01 every_dependency_is_an_edge] err == nil ==>
 //@        (forall i int, j int :: 0 <= i && i < len(g.nodes) && 0 <= j && j < len(g.nodes[i].data.Step.Depends) ==> edge_present(g, i, j))
 //@   ensures [C01 edges_point_to_nodes] forall k int, j int :: 0 <= j && j < len(g.to[k]) ==> has(g.dict, g.to[k][j])
+//@   ensures [C10 forward_edges_point_to_nodes] forall k int, j int :: 0 <= j && j < len(g.from[k]) ==> has(g.dict, g.from[k][j])
 //@   loop 0 invariant [resolved_so_far] forall i int, j int :: 0 <= i && i <= idx && 0 <= j && j < len(g.nodes[i].data.Step.Depends) ==>
 //@        (edge_present(g, i, j) && !old(name_absent(g, g.nodes[i].data.Step.Depends[j])))
 //@   loop 0 invariant [edges_to_nodes] forall k int, j int :: 0 <= j && j < len(g.to[k]) ==> has(g.dict, g.to[k][j])
+//@   loop 0 invariant [edges_from_nodes] forall k int, j int :: 0 <= j && j < len(g.from[k]) ==> has(g.dict, g.from[k][j])
 //@   loop 0 invariant obs.cycle_calls == old(obs.cycle_calls)
 //@   loop 1 invariant [resolved_so_far_outer] forall i int, j int :: 0 <= i && i <= idx0 && 0 <= j && j < len(g.nodes[i].data.Step.Depends) ==>
 //@        (edge_present(g, i, j) && !old(name_absent(g, g.nodes[i].data.Step.Depends[j])))
 //@   loop 1 invariant [resolved_so_far_inner] forall j int :: 0 <= j && j <= idx ==>
 //@        (edge_present(g, idx0 + 1, j) && !old(name_absent(g, g.nodes[idx0 + 1].data.Step.Depends[j])))
 //@   loop 1 invariant [edges_to_nodes_inner] forall k int, j int :: 0 <= j && j < len(g.to[k]) ==> has(g.dict, g.to[k][j])
+//@   loop 1 invariant [edges_from_nodes_inner] forall k int, j int :: 0 <= j && j < len(g.from[k]) ==> has(g.dict, g.from[k][j])
 //@   loop 1 invariant obs.cycle_calls == old(obs.cycle_calls)
 
 // Node identities come from a process-wide counter: every id handed out is positive and below the counter.
@@ -648,3 +653,140 @@ package scheduler
 //@ fn (*Node).Data(n) (d)
 //@   props C08
 //@   ensures d == n.data
+
+// ---------------------------------------------------------------------------------------------
+// Retry (C10): which recorded steps are reset.  A step needs a rerun when its recorded status is failed, canceled or
+// running (the record of a killed process); the walk resets such a step when it visits it, marks everything
+// downstream, and touches nothing else.  (That the walk visits every step, i.e. the closure as a whole, is decided by
+// the bounded stand-in c10_retry_closure, which runs this very function.)
+//@ pred needs_rerun(s NodeStatus) = s == NodeStatusError || s == NodeStatusCancel || s == NodeStatusRunning
+
+//@ fn (*Node).clearState(n)
+//@   props C10
+//@   modifies n.data.State
+//@   ensures [C10 reset_step_is_not_started] n.data.State.Status == NodeStatusNone && n.data.State.Error == nil &&
+//@        n.data.State.RetryCount == 0 && n.data.State.DoneCount == 0 && n.data.State.Log == ""
+
+//@ pred retry_graph_wf(g *ExecutionGraph) = nodes_wf(g) && dict_wf(g) && ids_wf(g) && graph_wf(g) &&
+//@      (forall i int :: 0 <= i && i < len(g.nodes) ==> (has(g.dict, g.nodes[i].id) && g.dict[g.nodes[i].id] == g.nodes[i])) &&
+//@      (forall k int :: has(g.dict, k) ==> (exists i int :: 0 <= i && i < len(g.nodes) && g.nodes[i] == g.dict[k])) &&
+//@      (forall k int, j int :: 0 <= j && j < len(g.from[k]) ==> has(g.dict, g.from[k][j]))
+//@ pred recorded(g *ExecutionGraph, dict map[int]NodeStatus) = forall k int :: has(g.dict, k) ==> dict[k] == old(g.dict[k].data.State.Status)
+
+//@ pred is_reset(n *Node) = n.data.State.Status == NodeStatusNone && n.data.State.Error == nil && n.data.State.RetryCount == 0 &&
+//@      n.data.State.DoneCount == 0 && n.data.State.Log == ""
+//@ pred pending(k int, s []int, lo int) = inslice(s, lo, k)
+//@ pred handled(g *ExecutionGraph, retry map[int]bool, k int) = is_reset(g.dict[k]) &&
+//@      (forall j int :: 0 <= j && j < len(g.from[k]) ==> retry[g.from[k][j]])
+// The table of steps to run again, as the walk leaves it (ghost copy of the local `retry` map).
+//@ ghost rerun map[int]bool
+//@ pred justified(g *ExecutionGraph, retry map[int]bool, dict map[int]NodeStatus, k int) = needs_rerun(dict[k]) ||
+//@      (exists p int, j int :: has(g.dict, p) && retry[p] && 0 <= j && j < len(g.from[p]) && g.from[p][j] == k)
+
+//@ fn (*ExecutionGraph).setupRetry(g) (err)
+//@   props C10
+//@   requires retry_graph_wf(g) && g.logger != nil
+//@   modifies heap(Node.data.State), heap(alloc), ghost rerun
+//@   records rerun = retry
+//@   ensures err == nil
+//@   ensures [C10 steps_are_kept_or_reset] forall k int :: has(g.dict, k) ==>
+//@        (g.dict[k].data.State == old(g.dict[k].data.State) || is_reset(g.dict[k]))
+//@   ensures [C10 rerun_set_is_closed_downstream] forall k int :: has(g.dict, k) && rerun[k] ==>
+//@        (is_reset(g.dict[k]) && (forall j int :: 0 <= j && j < len(g.from[k]) ==> rerun[g.from[k][j]]))
+//@   ensures [C10 rerun_set_is_justified] forall k int :: has(g.dict, k) && rerun[k] ==>
+//@        (needs_rerun(old(g.dict[k].data.State.Status)) ||
+//@         (exists p int, j int :: has(g.dict, p) && rerun[p] && 0 <= j && j < len(g.from[p]) && g.from[p][j] == k))
+//@   ensures [C10 only_rerun_steps_are_touched] forall k int :: has(g.dict, k) && !rerun[k] ==> g.dict[k].data.State == old(g.dict[k].data.State)
+//@   loop 0 modifies contents(dict), contents(retry)
+//@   loop 0 invariant forall i int :: 0 <= i && i <= idx ==> dict[g.nodes[i].id] == g.nodes[i].data.State.Status
+//@   loop 0 invariant forall k int :: !retry[k]
+//@   loop 1 modifies heap(alloc)
+//@   loop 1 invariant forall m int :: 0 <= m && m < len(frontier) ==> has(g.dict, frontier[m])
+//@   loop 2 modifies contents(retry), heap(Node.data.State), heap(alloc)
+//@   loop 2 invariant forall m int :: 0 <= m && m < len(frontier) ==> has(g.dict, frontier[m])
+//@   loop 2 invariant [kept_or_reset] forall k int :: has(g.dict, k) ==>
+//@        (g.dict[k].data.State == old(g.dict[k].data.State) || is_reset(g.dict[k]))
+//@   loop 2 invariant [table_is_the_record] recorded(g, dict)
+//@   loop 2 invariant [marked_is_justified] forall k int :: has(g.dict, k) && retry[k] ==> justified(g, retry, dict, k)
+//@   loop 2 invariant [unmarked_is_untouched] forall k int :: has(g.dict, k) && !retry[k] ==> g.dict[k].data.State == old(g.dict[k].data.State)
+//@   loop 2 invariant [marked_is_handled_or_pending] forall k int :: has(g.dict, k) && retry[k] ==>
+//@        (handled(g, retry, k) || pending(k, frontier, 0))
+//@   loop 3 modifies contents(retry), heap(Node.data.State), heap(alloc)
+//@   loop 3 invariant forall m int :: 0 <= m && m < len(next) ==> has(g.dict, next[m])
+//@   loop 3 invariant [kept_or_reset] forall k int :: has(g.dict, k) ==>
+//@        (g.dict[k].data.State == old(g.dict[k].data.State) || is_reset(g.dict[k]))
+//@   loop 3 invariant [table_is_the_record] recorded(g, dict)
+//@   loop 3 invariant [marked_is_justified] forall k int :: has(g.dict, k) && retry[k] ==> justified(g, retry, dict, k)
+//@   loop 3 invariant [unmarked_is_untouched] forall k int :: has(g.dict, k) && !retry[k] ==> g.dict[k].data.State == old(g.dict[k].data.State)
+//@   loop 3 invariant [marked_is_handled_or_pending] forall k int :: has(g.dict, k) && retry[k] ==>
+//@        (handled(g, retry, k) || pending(k, frontier, idx + 1) || pending(k, next, 0))
+//@   loop 4 modifies contents(retry), heap(alloc)
+//@   loop 4 invariant forall m int :: 0 <= m && m < len(next) ==> has(g.dict, next[m])
+//@   loop 4 invariant [flag_of_visited_step_is_stable] retry[frontier[idx3 + 1]] == entry(retry[frontier[idx3 + 1]])
+//@   loop 4 invariant [marked_so_far] forall j int :: 0 <= j && j <= idx ==>
+//@        (retry[frontier[idx3 + 1]] ==> retry[g.from[frontier[idx3 + 1]][j]])
+//@   loop 4 invariant [marks_only_grow] forall k int :: entry(retry[k]) ==> retry[k]
+//@   loop 4 invariant [marked_is_justified] forall k int :: has(g.dict, k) && retry[k] ==> justified(g, retry, dict, k)
+//@   loop 4 invariant [marked_is_handled_or_pending] forall k int :: has(g.dict, k) && retry[k] && k != frontier[idx3 + 1] ==>
+//@        (handled(g, retry, k) || pending(k, frontier, idx3 + 2) || pending(k, next, 0))
+//@   loop 3 step [C10 visited_step_is_reset_iff_it_needs_a_rerun]
+//@        ((iter(retry[frontier[idx]]) || needs_rerun(dict[frontier[idx]])) ==>
+//@             (is_reset(g.dict[frontier[idx]]) && retry[frontier[idx]])) &&
+//@        (!(iter(retry[frontier[idx]]) || needs_rerun(dict[frontier[idx]])) ==>
+//@             (g.dict[frontier[idx]].data.State == iter(g.dict[frontier[idx]].data.State) && !retry[frontier[idx]]))
+//@   loop 3 step [C10 rerun_propagates_downstream] retry[frontier[idx]] ==>
+//@        (forall j int :: 0 <= j && j < len(g.from[frontier[idx]]) ==> retry[g.from[frontier[idx]][j]])
+//@   loop 3 step [C10 nothing_else_is_reset] forall k int :: has(g.dict, k) && k != frontier[idx] ==>
+//@        g.dict[k].data.State == iter(g.dict[k].data.State)
+
+// A node rebuilt from a record carries exactly the recorded step and state.
+//@ fn NewNode(step, state) (n)
+//@   props C10
+//@   modifies heap(alloc)
+//@   ensures [C10 node_is_the_given_step_and_state] n != nil && !wasAllocated(n) && n.data.Step == step && n.data.State == state && n.id == 0
+
+// Retry graph (C10, C11): built from the recorded nodes, in order; recorded output variables are stored again under
+// their names and exported; then the rerun set is computed (setupRetry).
+//@ fn NewExecutionGraphForRetry$1(key, value) (r)
+//@   props C11
+//@   modifies ghost outvar.stores, ghost outvar.key, ghost outvar.val, ghost eff.env, ghost env.key, ghost env.val, heap(alloc)
+//@   ensures [C11 recorded_output_is_restored_under_its_name] isType(key, "string") && isType(value, "string") ==>
+//@        (r && outvar.stores == old(outvar.stores) + 1 && outvar.key == key && outvar.val == value &&
+//@         eff.env == old(eff.env) + 1 && env.key == asType(key, "string") &&
+//@         env.val == substr(asType(value, "string"), len(asType(key, "string")) + 1, len(asType(value, "string")) - len(asType(key, "string")) - 1))
+//@   ensures [C11 malformed_entries_are_skipped] !(isType(key, "string") && isType(value, "string")) ==>
+//@        (!r && outvar.stores == old(outvar.stores) && eff.env == old(eff.env))
+
+//@ fn NewExecutionGraphForRetry(lg, nodes) (g, err)
+//@   props C10 C11 C14
+//@   requires nextNodeID > 0 && lg != nil
+//@   requires forall i int :: 0 <= i && i < len(nodes) ==> (nodes[i] != nil && nodes[i].id == 0)
+//@   requires forall i int, j int :: 0 <= i && i < j && j < len(nodes) ==> nodes[i] != nodes[j]
+//@   modifies heap(Node.id), heap(Node.data.Step.OutputVariables), heap(Node.data.Step.Variables), heap(Node.data.Step.Preconditions),
+//@            heap(Node.data.State), heap(alloc), nextNodeID, ghost obs.cycle, ghost obs.cycle_calls, ghost rerun,
+//@            ghost outvar.stores, ghost outvar.key, ghost outvar.val, ghost eff.env, ghost env.key, ghost env.val
+//@   ensures [C14 refused_graph_is_nil] err != nil ==> g == nil
+//@   ensures [C14 accepted_only_if_acyclic] err == nil ==> (obs.cycle_calls == old(obs.cycle_calls) + 1 && !obs.cycle)
+//@   ensures [C10 retry_graph_has_the_recorded_nodes_in_order] err == nil ==>
+//@        (g != nil && retry_graph_wf(g) && len(g.nodes) == len(nodes) && (forall i int :: 0 <= i && i < len(nodes) ==> g.nodes[i] == nodes[i]))
+//@   ensures [C10 rerun_set_is_closed_downstream] err == nil ==> (forall k int :: has(g.dict, k) && rerun[k] ==>
+//@        (is_reset(g.dict[k]) && (forall j int :: 0 <= j && j < len(g.from[k]) ==> rerun[g.from[k][j]])))
+//@   ensures [C10 rerun_set_is_justified] err == nil ==> (forall i int :: 0 <= i && i < len(nodes) && rerun[nodes[i].id] ==>
+//@        (needs_rerun(old(nodes[i].data.State.Status)) ||
+//@         (exists p int, j int :: has(g.dict, p) && rerun[p] && 0 <= j && j < len(g.from[p]) && g.from[p][j] == nodes[i].id)))
+//@   ensures [C10 only_rerun_steps_are_touched] err == nil ==> (forall i int :: 0 <= i && i < len(nodes) && !rerun[nodes[i].id] ==>
+//@        nodes[i].data.State == old(nodes[i].data.State))
+//@   ensures [C10 steps_are_kept_or_reset] forall i int :: 0 <= i && i < len(nodes) ==>
+//@        (nodes[i].data.State == old(nodes[i].data.State) || is_reset(nodes[i]))
+//@   loop 0 modifies heap(Node.id), heap(Node.data.Step.OutputVariables), heap(Node.data.Step.Variables), heap(Node.data.Step.Preconditions),
+//@            heap(alloc), nextNodeID, contents(graph.dict), graph.nodes,
+//@            ghost outvar.stores, ghost outvar.key, ghost outvar.val, ghost eff.env, ghost env.key, ghost env.val
+//@   loop 0 invariant graph != nil && graph.dict != nil && graph.from != nil && graph.to != nil && graph.from != graph.to && graph.logger == lg
+//@   loop 0 invariant nextNodeID > 0
+//@   loop 0 invariant len(graph.nodes) == idx + 1 && nodes_wf(graph) && dict_wf(graph) && ids_wf(graph)
+//@   loop 0 invariant forall k int :: has(graph.dict, k) ==> (0 < k && k < nextNodeID)
+//@   loop 0 invariant forall k int :: has(graph.dict, k) ==> (exists i int :: 0 <= i && i <= idx && graph.nodes[i] == graph.dict[k])
+//@   loop 0 invariant forall k int :: !has(graph.to, k) && !has(graph.from, k)
+//@   loop 0 invariant forall i int :: 0 <= i && i <= idx ==>
+//@        (graph.nodes[i] == nodes[i] && has(graph.dict, nodes[i].id) && graph.dict[nodes[i].id] == nodes[i])
+//@   loop 0 invariant forall i int :: idx < i && i < len(nodes) ==> nodes[i].id == 0
